@@ -19,7 +19,7 @@ Quantifier: {quant}
 Why the existing tests cannot settle it: {why}
 
 """
-TAUGHT = """The people who check this property have since taught their checks: to re-run loaded scripts several times, on points of other types and along another path than the first run (also after a run that failed inside a block); to interleave unrelated failing operations; to sweep sizes around 16/32/64/256/4096/65536 (operator chains, nesting depth, repeated statements, text size, use-chain length, list length, number of keys / captures / parameters / polls); to use 4-byte characters, byte order marks, CR and CR LF, invalid UTF-8, nil-valued, value-less and self-containing arguments, float corner values (NaN, infinities, 5e-7, 1e21, -0) as subjects; script and identifier names that contain one another, contain directories, '%' or differ only by letter case, or look like reserved words; to raise the exit signal from inside a builtin or an assignment; to run loads, parses and runs concurrently before anything was initialised sequentially; to go through the exported linker with scripts of an earlier load or with a function table per script; to call Check again on loaded and linked scripts; to put literals, signed numerals and calls into unusual but valid contexts (after other quoting forms, after a conditional continue, inside value statements, as surplus values, at the start of a statement); to compare the rendered text of errors as well as their position chains; to feed every Go number kind, documents with trailing garbage, partly malformed or empty inputs; to repeat an operation after hundreds of operations with other arguments of the same kind; to pass values in which one collection is reachable along two paths, nil as well as empty maps, points initialised again without going through the pool, field values of every Go kind; to use one representative of every Unicode character class (format, separator, combining, private use, non-characters, characters whose low byte is an ASCII character) in names and texts; to put an invalid construct into every composite form of the grammar; to give signals, tables and parameter lists that are shared, edited, or have more methods than needed; to run the command-line tool in other time zones, on inputs that are not regular files, in directories with unusual names; to evaluate every operator expression in every position (assignment, if / elif / for condition, argument, element, key); to load sets in which several scripts have identical texts, sets read back from directories, scripts that are nothing but one use() call; to drive the exported lower-level API the way an embedding host may (one task initialised again per run, private values, check functions that fault, declared parameter types, defaults that are collections); to compare the error of a second run, and the error text after the error was rendered, with the first; to parse from several goroutines at once, also after rejected texts; to hold many runs inside one used script at the same moment; to re-examine the scripts of earlier loads after later loads; to retype keys by rename / add_key and read them with every operator; to edit collections in place between two builtin calls; to use empty-valued tags and fields, the empty script name, the `_` spelling of message in every argument position, captures that take no part in a match, zone names with signs, operands on the line below their operator, host functions that wait on ProcExit, call sites executed repeatedly with changing named arguments, standard output across use(); to produce the same value by every route (empty lists and maps from literals, slices, documents) and compare and alias them; to use subnormal floats, whole numbers beyond 2^53 as tag text, white space beyond ASCII, near misses of enumerated words (type names, reserved words as parameter names), numerals cut short, literal lists whose joined texts coincide; to observe the evaluation order of every composite form (map entries key then value, arguments, subscripts, slice bounds) with a failing sibling; to grow maps while they are iterated; to pass arguments that yield several values and value-less builtins as values; to let a waiting builtin observe the stop first and then enter a callee, and to raise the stop inside expression statements; to re-examine the maps of finished points after later runs; to change the process zone between runs of one loaded script; to start the command-line tool in directories that hold namesakes of scripts and inputs, on workspaces with sub-directories and symbolic links; to parse a text again after unrelated awkward texts; and to cover the cases above. Look for what such checks would still NOT exercise - for instance: a builtin option or argument combination nobody thinks of, behaviour on error paths (what is left behind or reported when something fails half-way), interactions between two builtins or two language features, numeric corner values inside builtins (overflow, precision, rounding, sign), time zones / calendars / leap seconds / year boundaries, differences between the two interpreters, ordering guarantees, precise values or positions in unusual but valid constructs, what the command-line tool does with unusual flags or files.
+TAUGHT = """The people who check this property have since taught their checks: to re-run loaded scripts several times, on points of other types and along another path than the first run (also after a run that failed inside a block); to interleave unrelated failing operations; to sweep sizes around 16/32/64/256/4096/65536 (operator chains, nesting depth, repeated statements, text size, use-chain length, list length, number of keys / captures / parameters / polls); to use 4-byte characters, byte order marks, CR and CR LF, invalid UTF-8, nil-valued, value-less and self-containing arguments, float corner values (NaN, infinities, 5e-7, 1e21, -0) as subjects; script and identifier names that contain one another, contain directories, '%' or differ only by letter case, or look like reserved words; to raise the exit signal from inside a builtin or an assignment; to run loads, parses and runs concurrently before anything was initialised sequentially; to go through the exported linker with scripts of an earlier load or with a function table per script; to call Check again on loaded and linked scripts; to put literals, signed numerals and calls into unusual but valid contexts (after other quoting forms, after a conditional continue, inside value statements, as surplus values, at the start of a statement); to compare the rendered text of errors as well as their position chains; to feed every Go number kind, documents with trailing garbage, partly malformed or empty inputs; to repeat an operation after hundreds of operations with other arguments of the same kind; to pass values in which one collection is reachable along two paths, nil as well as empty maps, points initialised again without going through the pool, field values of every Go kind; to use one representative of every Unicode character class (format, separator, combining, private use, non-characters, characters whose low byte is an ASCII character) in names and texts; to put an invalid construct into every composite form of the grammar; to give signals, tables and parameter lists that are shared, edited, or have more methods than needed; to run the command-line tool in other time zones, on inputs that are not regular files, in directories with unusual names; to evaluate every operator expression in every position (assignment, if / elif / for condition, argument, element, key); to load sets in which several scripts have identical texts, sets read back from directories, scripts that are nothing but one use() call; to drive the exported lower-level API the way an embedding host may (one task initialised again per run, private values, check functions that fault, declared parameter types, defaults that are collections); to compare the error of a second run, and the error text after the error was rendered, with the first; to parse from several goroutines at once, also after rejected texts; to hold many runs inside one used script at the same moment; to re-examine the scripts of earlier loads after later loads; to retype keys by rename / add_key and read them with every operator; to edit collections in place between two builtin calls; to use empty-valued tags and fields, the empty script name, the `_` spelling of message in every argument position, captures that take no part in a match, zone names with signs, operands on the line below their operator, host functions that wait on ProcExit, call sites executed repeatedly with changing named arguments, standard output across use(); to produce the same value by every route (empty lists and maps from literals, slices, documents) and compare and alias them; to use subnormal floats, whole numbers beyond 2^53 as tag text, white space beyond ASCII, near misses of enumerated words (type names, reserved words as parameter names), numerals cut short, literal lists whose joined texts coincide; to observe the evaluation order of every composite form (map entries key then value, arguments, subscripts, slice bounds) with a failing sibling; to grow maps while they are iterated; to pass arguments that yield several values and value-less builtins as values; to let a waiting builtin observe the stop first and then enter a callee, and to raise the stop inside expression statements; to re-examine the maps of finished points after later runs; to change the process zone between runs of one loaded script; to start the command-line tool in directories that hold namesakes of scripts and inputs, on workspaces with sub-directories and symbolic links; to parse a text again after unrelated awkward texts; to end comments with every kind of line end before every kind of character; to slice slices; to name script files with a leading dot; to compare tag texts against byte copies after later writes of other floats and collections; to trim with multi-byte cut sets; to put whatever ends a statement into every loop and branch header; to end passes over maps with continue; to capture standard output of concurrent long printf calls; to begin script files with blank lines; and to cover the cases above. Look for what such checks would still NOT exercise - for instance: a builtin option or argument combination nobody thinks of, behaviour on error paths (what is left behind or reported when something fails half-way), interactions between two builtins or two language features, numeric corner values inside builtins (overflow, precision, rounding, sign), time zones / calendars / leap seconds / year boundaries, differences between the two interpreters, ordering guarantees, precise values or positions in unusual but valid constructs, what the command-line tool does with unusual flags or files.
 Prefer, for A and B, two different kinds among: state that leaks between operations (pools, caches, shared structures), boundary / arithmetic / encoding corner cases, an interaction between two features that each work alone, a wrong result that is only visible by comparing values or positions precisely (no crash, no error).
 
 """
